@@ -10,7 +10,7 @@
    transcriptions of the code.  Theorems only; proofs in Proofs/HeapP.v (axiom-free).
    [abs h k] is the value (a [kripke]) of object k in heap h; [pure_call h c] is the pure model
    applied to the values of the call's arguments. *)
-From PMC Require Import Spec.Lemmas Model.Heap Proofs.HeapP.
+From PMC Require Import Spec.Lemmas Model.Heap Model.HeapSession Proofs.HeapP Proofs.HeapSessionP.
 
 (* one call: every cell that existed before the call is unchanged (FRAME) and the result is the
    pure function of the argument values (REFINEMENT) *)
@@ -50,6 +50,35 @@ Theorem C07_history : forall h0 cs h' rs,
   (forall k, valid h0 k -> valid h' k /\ abs h' k = abs h0 k).
 Proof. exact history. Qed.
 Print Assumptions C07_history.
+
+(* sessions in which the CALLER also writes (it holds the label sets of its own structure:
+   labels(s).add / discard, writing through labelling_function()): every call answers for the
+   labelling as the caller has made it SO FAR ([spec_session] evaluates the pure model on the
+   heap produced by the caller's writes alone), nothing a call did is visible afterwards, and
+   every structure has at the end the value the caller gave it.  C07_history is the special
+   case without writes.  A result remembered from an earlier call (a cache keyed by the
+   structure object) cannot satisfy this: see the example below. *)
+Theorem C07_session : forall h0 ss h' rs,
+  (forall c, In (SCall c) ss -> valid h0 (call_obj c)) ->
+  run_session h0 ss = (h', rs) ->
+  rs = spec_session h0 ss /\
+  (forall l, allocated (caller_heap h0 ss) l -> hget h' l = hget (caller_heap h0 ss) l) /\
+  (forall k, valid h0 k -> valid h' k /\ abs h' k = abs (caller_heap h0 ss) k).
+Proof. exact session. Qed.
+Print Assumptions C07_session.
+
+Theorem C07_session_extends_history : forall h cs,
+  run_session h (map SCall cs) = run_calls h cs /\ spec_session h (map SCall cs) = map (pure_call h) cs.
+Proof. intros h cs. split; [apply run_session_calls|apply spec_session_calls]. Qed.
+Print Assumptions C07_session_extends_history.
+
+(* the same query three times, the caller adding "p" to state 0 and then clearing state 1 in
+   between: the answers follow the caller's labelling *)
+Theorem C07_session_example :
+  snd (run_session Examples.h0 SessionExamples.ss) = [Ok [1]; Ok [0; 1]; Ok [0]] /\
+  spec_session Examples.h0 SessionExamples.ss = [Ok [1]; Ok [0; 1]; Ok [0]].
+Proof. exact SessionExamples.relabelled_answers. Qed.
+Print Assumptions C07_session_example.
 
 (* non-vacuity: WITHOUT the clone (or with a shallow clone that shares the label cells) the
    frame statement is false, and a later call on the same structure returns a wrong answer *)
